@@ -5,6 +5,7 @@ package main
 // script that existed when it was emitted.
 
 import (
+	"sort"
 	"fmt"
 	"go/token"
 	"os"
@@ -50,6 +51,10 @@ type Obl struct {
 	// trigger terms mention a symbol the goal depends on through definitions
 	// (two rounds); dropping hypotheses is sound for proving.
 	Focus bool
+	// Lean keeps only the assumptions that speak exclusively about symbols in
+	// the definitional cone of the goal and guard (plus parameters); every
+	// other assumption is dropped (sound for proving, much smaller queries).
+	Lean bool
 	// FrameDetail: verdict text of a package-wide frame obligation
 	FrameDetail string
 }
@@ -387,6 +392,9 @@ func (o *Obl) render(withModel bool, tail string, seeds ...string) string {
 	if o.Focus {
 		all = focusQuantified(all, append(append([]string{}, seeds...), tail))
 	}
+	if o.Lean {
+		all = leanCmds(all, append(append([]string{}, seeds...), tail))
+	}
 	if o.DropQuantified {
 		// candidate-counterexample mode: quantified hypotheses are dropped (the
 		// model is only believed if it replays on the real code)
@@ -576,4 +584,105 @@ func focusQuantified(cmds []string, seeds []string) []string {
 		out = append(out, c)
 	}
 	return out
+}
+
+func leanCmds(cmds []string, seeds []string) []string {
+	names := map[string]bool{}
+	for _, c := range cmds {
+		if n := cmdName(c); n != "" {
+			names[n] = true
+		}
+	}
+	def := map[string][]string{}
+	isDefAssert := map[int]string{}
+	for i, c := range cmds {
+		if strings.HasPrefix(c, "(define-fun ") {
+			n := cmdName(c)
+			for _, t := range allTokens(c) {
+				if names[t] && t != n {
+					def[n] = append(def[n], t)
+				}
+			}
+		} else if strings.HasPrefix(c, "(assert (= ") {
+			r := c[len("(assert (= "):]
+			j := strings.IndexAny(r, " )")
+			if j > 0 && names[r[:j]] {
+				n := r[:j]
+				isDefAssert[i] = n
+				for _, t := range allTokens(c) {
+					if names[t] && t != n {
+						def[n] = append(def[n], t)
+					}
+				}
+			}
+		}
+	}
+	dep := map[string]bool{}
+	var close func(t string)
+	close = func(t string) {
+		if dep[t] {
+			return
+		}
+		dep[t] = true
+		for _, u := range def[t] {
+			close(u)
+		}
+	}
+	for _, sd := range seeds {
+		for _, t := range tokenRe.FindAllString(sd, -1) {
+			if names[t] {
+				close(t)
+			}
+		}
+	}
+	var out []string
+	for i, c := range cmds {
+		if n := cmdName(c); n != "" {
+			if dep[n] || strings.HasPrefix(c, "(declare-sort") || strings.HasPrefix(c, "(declare-fun") {
+				out = append(out, c)
+			}
+			continue
+		}
+		if n, ok := isDefAssert[i]; ok {
+			if dep[n] {
+				out = append(out, c)
+			}
+			continue
+		}
+		keep := true
+		for _, t := range allTokens(c) {
+			if names[t] && !dep[t] && !strings.HasPrefix(t, "p_") {
+				// declared functions (uninterpreted) are neutral
+				keep = false
+				break
+			}
+		}
+		if keep {
+			out = append(out, c)
+		}
+	}
+	// parameters and function symbols mentioned by kept commands need declarations
+	have := map[string]bool{}
+	for _, c := range out {
+		if n := cmdName(c); n != "" {
+			have[n] = true
+		}
+	}
+	var pre []string
+	for _, c := range cmds {
+		if n := cmdName(c); n != "" && !have[n] && strings.HasPrefix(n, "p_") {
+			pre = append(pre, c)
+			have[n] = true
+		}
+	}
+	// keep original order: declarations of parameters come first in cmds anyway
+	res := make([]string, 0, len(out)+len(pre))
+	idx := map[string]int{}
+	for i, c := range cmds {
+		idx[c] = i
+	}
+	res = append(res, pre...)
+	res = append(res, out...)
+	sort.SliceStable(res, func(a, b int) bool { return idx[res[a]] < idx[res[b]] })
+	return res
 }
